@@ -1,5 +1,5 @@
 ------------------------------- MODULE MC_C12 -------------------------------
-EXTENDS Decode, Json, TLC
+EXTENDS Decode, Json, TLC, FiniteSets
 CONSTANTS MaxRank
 VARIABLES st
 P(c) == PrintT(<<"CASE", ToJson(c)>>)
@@ -47,6 +47,24 @@ Cases(dt, dims) ==
    /\ P(CaseOf([Proto(dt, dims, "typed", n, 0, <<>>, 0) EXCEPT !.raw = Flatten([k \in 1..(n + 1) |-> ElemOf(dt, k + 1)])], <<dt, "typed", "both_fields">>))
    /\ (Len(dims) >= 1 => P(CaseOf([Proto(dt, dims, "raw", n, 0, <<>>, 0) EXCEPT !.dims = [dims EXCEPT ![1] = -dims[1]]], <<dt, "raw", "negative_dim">>)))
    /\ (Len(dims) >= 1 => P(CaseOf([Proto(dt, [dims EXCEPT ![1] = 0], "raw", 0, 0, <<>>, 0) EXCEPT !.dims = [dims EXCEPT ![1] = 0]], <<dt, "raw", "zero_dim">>)))
+   \* every non-empty subset of the dims negated (an even number of negative dims has the positive product of the payload)
+   /\ \A neg \in (SUBSET (1..Len(dims))) \ {{}} :
+         \A enc \in {"raw", "typed"} :
+            P(CaseOf([Proto(dt, dims, enc, n, 0, <<>>, 0) EXCEPT !.dims = [i \in 1..Len(dims) |-> IF i \in neg THEN -dims[i] ELSE dims[i]]],
+                     <<dt, enc, "negative_dims", "negated_" \o ToString(Cardinality(neg))>>))
+   \* a negative dim next to a zero dim, empty payload
+   /\ P(CaseOf([Proto(dt, <<0>> \o dims, "raw", 0, 0, <<>>, 0) EXCEPT !.dims = <<-1, 0>> \o dims], <<dt, "raw", "negative_and_zero_dim">>))
+   \* dims whose product wraps around 2^64 to exactly the payload's element count: 2^32 * 2^32 * dims = 0 (mod 2^64) with an empty payload,
+   \* 274177 * 67280421310721 * dims = (2^64 + 1) * n = n (mod 2^64) with n elements
+   /\ \A enc \in {"raw", "typed"} :
+         /\ P(CaseOf(Proto(dt, <<1, 1>> \o dims, enc, 0, 0, <<>>, 0) @@ [bigdims |-> <<<<0, 0, 1>>, <<0, 0, 1>>>>], <<dt, enc, "dims_product_overflow", "wraps_to_0">>))
+         /\ P(CaseOf(Proto(dt, <<274177, 1>> \o dims, enc, n, 0, <<>>, 0) @@ [bigdims |-> <<<<>>, <<53505, 61852, 15664>>>>], <<dt, enc, "dims_product_overflow", "wraps_to_n">>))
+         /\ P(CaseOf(Proto(dt, dims \o <<1, 274177>>, enc, n, 0, <<>>, 0) @@ [bigdims |-> [i \in 1..(Len(dims) + 1) |-> IF i = Len(dims) + 1 THEN <<53505, 61852, 15664>> ELSE <<>>]],
+                      <<dt, enc, "dims_product_overflow", "wraps_to_n_trailing">>))
+   \* raw bool bytes other than 0 and 1
+   /\ (dt = "bool" /\ n >= 1 =>
+         \A b \in {2, 128, 255} :
+            P(CaseOf([Proto(dt, dims, "raw", n, 0, <<>>, 0) EXCEPT !.raw = [k \in 1..n |-> IF k % 3 = 1 THEN b ELSE IF k % 3 = 2 THEN 0 ELSE 1]], <<dt, "raw", "noncanonical_bool_bytes">>)))
 
 \* every other data_type code with each typed field populated (and raw)
 OtherCodes == {0, 8, 10, 14, 15, 16, 17, -1, 99}
